@@ -16,9 +16,6 @@ import (
 // Native bodies of the harness intrinsics: nondeterministic inputs come from
 // a tape produced by the solver's model.
 
-type verifAssertFail struct{ id string }
-type verifAssumeFail struct{}
-type verifTapeMismatch struct{ msg string }
 
 var (
 	verifTape    []string
@@ -245,3 +242,5 @@ func verifRender(v interface{}) string {
 var verifAbstractUsed bool
 
 func verifAbstractFloat() float64 { verifAbstractUsed = true; return math.NaN() }
+
+func verifGrammarAccepts(types []tokType) bool { return verifGrammarAcceptsNative(types) }
